@@ -417,6 +417,15 @@ func powInt32(base, exp int32) int32 {
 	if exp < 0 {
 		return 0
 	}
+	switch base { // constant powers: the loop below would run (or, for exp = MaxInt32, never end)
+	case 0, 1:
+		return base
+	case -1:
+		if exp%2 == 0 {
+			return 1
+		}
+		return -1
+	}
 
 	result := base
 	for i := int32(2); i <= exp; i++ {
